@@ -1,0 +1,25 @@
+//go:build !verif
+
+package nebula
+
+import "net/netip"
+
+// No-op counterparts of verif_hooks_on.go: the shipped build contains no
+// verification seam behaviour at all.
+
+type verifTryLocker interface {
+	TryLock() bool
+	Unlock()
+}
+
+type verifTryRLocker interface {
+	TryRLock() bool
+	RUnlock()
+}
+
+func verifYield(string)                       {}
+func verifLockPoint(string, verifTryLocker)   {}
+func verifRLockPoint(string, verifTryRLocker) {}
+func verifSortRelays([]*Relay)                {}
+func verifSortAddrs([]netip.Addr)             {}
+func verifSortU32([]uint32)                   {}
